@@ -2,5 +2,4 @@ CONSTANTS
   Tier = "thorough"
 SPECIFICATION Spec
 INVARIANTS CursorInRun CharsConserved DeletionOnlyByEmptySequence FlagsSane ProgramsWellFormed SmallStepIsDenotation EmitCase EmitProg
-PROPERTY Terminates
 CHECK_DEADLOCK FALSE
